@@ -15,7 +15,9 @@ fn guarded<T>(f: impl FnOnce() -> T + std::panic::UnwindSafe) -> Result<T, Strin
 }
 
 /// the iterator seen through the standard adaptors (skip, nth, step_by, count, last): the same items as by next()
-fn adaptors<T: PartialEq + std::fmt::Debug + Clone + 'static>(what: &str, want: &[T], make: &dyn Fn() -> Box<dyn Iterator<Item = T>>) -> String {
+// generic over the concrete iterator type: a boxed `dyn Iterator` would route fold / count / last through the default
+// methods (built on next()) and hide an override of the type under test
+fn adaptors<T: PartialEq + std::fmt::Debug + Clone + 'static, I: Iterator<Item = T>>(what: &str, want: &[T], make: &dyn Fn() -> I) -> String {
     for n in 0..4usize {
         let got: Vec<T> = make().skip(n).collect();
         let exp: Vec<T> = want.iter().skip(n).cloned().collect();
@@ -59,7 +61,7 @@ pub fn adaptors_kmer(s: &[u8], k: usize) -> Option<Vec<(String, String)>> {
     let want: Vec<(u64, u64)> = kmers_spec(s, k).into_iter().map(|(_, f, r)| (f, r)).collect();
     let s2: &'static [u8] = Box::leak(s.to_vec().into_boxed_slice());
     let w2 = want.clone();
-    let r = guarded(move || adaptors("KmerGenerator", &w2, &|| Box::new(KmerGenerator::new(s2, k))));
+    let r = guarded(move || adaptors("KmerGenerator", &w2, &|| KmerGenerator::new(s2, k)));
     let why = match r { Ok(w) => w, Err(e) => format!("panic: {}", e) };
     if why.is_empty() { None } else { Some(vec![("seq".into(), show(s)), ("k".into(), k.to_string()), ("via".into(), "adaptors".into()), ("why".into(), why)]) }
 }
@@ -68,8 +70,8 @@ pub fn adaptors_min(kmin: bool, s: &[u8], w: usize, m: usize) -> Option<Vec<(Str
     let s2: &'static [u8] = Box::leak(s.to_vec().into_boxed_slice());
     let w2 = want.clone();
     let r = guarded(move || {
-        if kmin { adaptors("KmerMinimiserGenerator", &w2, &|| Box::new(kmer::kmer_minimisers::KmerMinimiserGenerator::new(s2, w, m).map(|x| (x.0, x.1, x.2)))) }
-        else { adaptors("MinimiserGenerator", &w2, &|| Box::new(kmer::minimiser::MinimiserGenerator::new(s2, w, m))) }
+        if kmin { adaptors("KmerMinimiserGenerator", &w2, &|| kmer::kmer_minimisers::KmerMinimiserGenerator::new(s2, w, m).map(|x| (x.0, x.1, x.2))) }
+        else { adaptors("MinimiserGenerator", &w2, &|| kmer::minimiser::MinimiserGenerator::new(s2, w, m)) }
     });
     let why = match r { Ok(x) => x, Err(e) => format!("panic: {}", e) };
     if why.is_empty() { None } else { Some(vec![("seq".into(), show(s)), ("w".into(), w.to_string()), ("m".into(), m.to_string()), ("via".into(), "adaptors".into()), ("why".into(), why)]) }
